@@ -215,6 +215,16 @@ def check_unit(spec_path, do_twins=True, keep=True):
     res["auto_consts"] = auto_consts
     res["extra"] = extra
     res["assumption_sites"] = scan_assumptions(text)
+    # closure literals without a contract, per extracted item: Verus knows nothing about what such a closure returns,
+    # so when a change ADDS one (count above the baseline) a failed obligation of that item is undecided, not a violation
+    glines = text.split("\n")
+    res["closures"] = {}
+    for it in meta["items"]:
+        a, b = it["gen_lines"]
+        try:
+            res["closures"][it["label"]] = len(rsx.unannotated_closures("\n".join(glines[a - 1:b])))
+        except Exception:
+            res["closures"][it["label"]] = 0
     for it in meta["items"]:
         res["items"].append({"file": it["relpath"], "path": it["path"], "fn": it["fn"],
                              "src_lines": it["src_lines"], "contracted": it["contracted"],
